@@ -322,10 +322,10 @@ pub fn check_system(ctx: &Ctx, sys: &RosSys, item: u64, acc: &mut Acc, found: &m
             ));
         }
         let task = (0..n)
-            .find(|k| b[*k].map(|bb| rep.worst(*k) >= bb).unwrap_or(false))
+            .find(|k| b[*k].map(|bb| rep.exceeds(*k, bb)).unwrap_or(false))
             .unwrap_or(task0);
         let bound = b[task].unwrap();
-        if rep.worst(task) < bound {
+        if !rep.exceeds(task, bound) {
             machinery_error(&format!(
                 "trace checker does not reproduce the violating response time on {:?}: {:?} ticks {:?}",
                 sys, rep, ticks
@@ -642,7 +642,7 @@ pub fn run(id: &str, ctx: &mut Ctx) -> (String, Value, Vec<String>) {
     for fam in &fams {
         let acc = Mutex::new(Acc::default());
         let found = Mutex::new(Vec::<Found>::new());
-        let chunk = 128u64;
+        let chunk = (fam.total / 256).clamp(1, 128);
         let nchunks = (fam.total + chunk - 1) / chunk;
         let c: &Ctx = ctx;
         (0..nchunks).into_par_iter().for_each(|ci| {
@@ -726,7 +726,7 @@ pub fn replay(case: &Value) -> bool {
     match now.and_then(|b| b[r.callback]) {
         Some(b) => {
             rep.problems.is_empty()
-                && (rep.max_resp[r.callback] > b || rep.pending_age[r.callback] >= b)
+                && rep.exceeds(r.callback, b)
         }
         None => false,
     }
